@@ -70,7 +70,8 @@ def write(path, text):
 
 @st.composite
 def renderings(draw, damage=True):
-    doc = draw(D.documents(D.profile('full', kern_weight=3)))
+    # documents without any **kern spine are legitimate inputs as well (the converters then produce an empty file)
+    doc = draw(D.documents(D.profile('full', kern_weight=3, force_kern=draw(st.integers(0, 5)) > 0)))
     dmg = []
     if damage and draw(st.integers(0, 4)) == 0:
         cand = [(i, k) for i, k, c in S.cells(doc) if c['k'] in ('note', 'rest', 'chord', 'text', 'null')]
@@ -79,7 +80,7 @@ def renderings(draw, damage=True):
                 m = draw(MF.malformed())
                 doc['rows'][i]['c'][k] = {'k': 'damaged', 't': m['t'], 'e': m['t'], 'cat': None}
                 dmg.append([i, k])
-    return {'doc': doc, 'nl': draw(st.sampled_from(['\n', '\n', '\r\n'])), 'final': draw(st.integers(0, 3)) > 0, 'damaged': dmg}
+    return {'doc': doc, 'nl': '\r\n' if draw(st.integers(0, 2)) == 0 else '\n', 'final': draw(st.integers(0, 3)) > 0, 'damaged': dmg}
 
 
 @st.composite
@@ -101,13 +102,19 @@ def cases(draw):
     main_ = draw(renderings())
     n = len(main_['doc']['types'])
     opts = [draw(option_sets(n)) for _ in range(3)]
-    nfiles = draw(st.integers(2, 5))
+    nfiles = draw(st.integers(3, 5))
     tree = []
-    stems = ['a', 'b', 'c', 'd', 'e']
+    used = set()
     for j in range(nfiles):
-        tree.append({'r': draw(renderings()), 'sub': draw(st.sampled_from(['', '', 'sub', 'sub/deep'])),
-                     'stem': stems[j], 'suffix': draw(st.sampled_from(['.krn', '.krn', '.kern', '.txt']))})
-    return {'main': main_, 'opts': opts, 'tree': tree, 'recursive': draw(st.booleans()), 'subprocess': False}
+        sub = draw(st.sampled_from(['', '', '', 'sub', 'sub/deep', 'other']))
+        # the same base name may occur in different directories, never twice in one directory
+        stem = draw(st.sampled_from(['score', 'a', 'b', 'c']))
+        while (sub, stem) in used:
+            stem += 'x'
+        used.add((sub, stem))
+        tree.append({'r': draw(renderings(damage=draw(st.integers(0, 3)) == 0)), 'sub': sub, 'stem': stem,
+                     'suffix': draw(st.sampled_from(['.krn', '.krn', '.krn', '.kern', '.kern', '.txt']))})
+    return {'main': main_, 'opts': opts, 'tree': tree, 'recursive': draw(st.sampled_from([True, True, False])), 'subprocess': False}
 
 
 def text_of(r):
